@@ -23,7 +23,7 @@ VERUS_RLIMIT = os.environ.get('VERIF_VERUS_RLIMIT', '150')
 NPROC = os.cpu_count() or 8
 
 
-from common import Undecided
+from common import Undecided, run_group
 
 
 def log(*a):
@@ -81,7 +81,7 @@ def run_verus(path, seed, extra=(), timeout=900):
     cmd += list(extra)
     t0 = time.time()
     try:
-        r = subprocess.run(cmd, capture_output=True, text=True, timeout=timeout, cwd=os.path.dirname(path))
+        r = run_group(cmd, timeout, cwd=os.path.dirname(path))
     except subprocess.TimeoutExpired:
         raise Undecided('verus timed out after %ds' % timeout)
     wall = time.time() - t0
@@ -242,7 +242,7 @@ def vacuity_twin(g, scratch, seed, name='collector'):
     cmd = ['verus', path, '--rlimit', '2', '--multiple-errors', '0', '--triggers-mode', 'silent', '--error-format=json', '--output-json', '--time-expanded', '--verify-root',
            '--verify-function', '*__vac', '--num-threads', str(min(NPROC, 16))]
     try:
-        r = subprocess.run(cmd, capture_output=True, text=True, timeout=600, cwd=scratch)
+        r = run_group(cmd, 600, cwd=scratch)
     except subprocess.TimeoutExpired:
         raise Undecided('vacuity twin timed out')
     try:
@@ -307,7 +307,7 @@ def lemma_vacuity_twins(g, scratch, seed, name):
     cmd = ['verus', path, '--rlimit', '4', '--multiple-errors', '0', '--triggers-mode', 'silent', '--error-format=json', '--output-json', '--time-expanded',
            '--num-threads', str(min(NPROC, 16))]
     try:
-        r = subprocess.run(cmd, capture_output=True, text=True, timeout=1800, cwd=scratch)
+        r = run_group(cmd, 1800, cwd=scratch)
     except subprocess.TimeoutExpired:
         raise Undecided('lemma vacuity twins timed out')
     try:
